@@ -19,7 +19,7 @@ RULE = (
     "non-trivial = the screen has >=2 plates and the op is not a no-op on the model"
 )
 ASSUMPTIONS = ["revealing a set consisting only of unknown plate ids may either raise ValueError or return the screen unchanged", "refusal of all-zero values is judged only when every plate of the revealed set is all zero"]
-REQUIRED = {"view_plate_counts_checked": {"quick": 500, "thorough": 8000}, "cli_refusals_checked": {"quick": 60, "thorough": 800}, "constructor_cases_with_unusual_values": {"quick": 40, "thorough": 600}, "reveals_with_negative_unknown_id": {"quick": 60, "thorough": 900}, "history_steps_checked": {"quick": 2500, "thorough": 40000}, "reveals_checked": {"quick": 600, "thorough": 10000}, "refusals_checked": {"quick": 100, "thorough": 1500}, "constructor_cases": {"quick": 150, "thorough": 2500}, "cli_steps": {"quick": 100, "thorough": 1500}, "earlier_stage_rechecks": {"quick": 10000, "thorough": 150000}, "branches": {"quick": 200, "thorough": 3000}, "in_place_reveals": {"quick": 150, "thorough": 2000}}
+REQUIRED = {"constructor_cases_with_non_bool_mask": {"quick": 60, "thorough": 900}, "view_plate_counts_checked": {"quick": 500, "thorough": 8000}, "cli_refusals_checked": {"quick": 60, "thorough": 800}, "constructor_cases_with_unusual_values": {"quick": 40, "thorough": 600}, "reveals_with_negative_unknown_id": {"quick": 60, "thorough": 900}, "history_steps_checked": {"quick": 2500, "thorough": 40000}, "reveals_checked": {"quick": 600, "thorough": 10000}, "refusals_checked": {"quick": 100, "thorough": 1500}, "constructor_cases": {"quick": 150, "thorough": 2500}, "cli_steps": {"quick": 100, "thorough": 1500}, "earlier_stage_rechecks": {"quick": 10000, "thorough": 150000}, "branches": {"quick": 200, "thorough": 3000}, "in_place_reveals": {"quick": 150, "thorough": 2000}}
 N_HIST = {"quick": 960, "thorough": 9600}
 
 
@@ -309,9 +309,14 @@ def run_shard(rec, tier, seed, shard, nshards):
             rec.case(("ctor-mixed", kit.array_hash(m)))
             rec.count("constructor_cases")
             rec.count("oracle_evals")
+            # the mask as a boolean array, or as the 0 / 1 integers (or Python bools in an object array) that files
+            # and tables hand over
+            m_given = [m, m.astype(np.int64), m.astype(np.int8), m.astype(np.uint8), m.astype(object)][int(rng.integers(5))]
+            if m_given.dtype != bool:
+                rec.count("constructor_cases_with_non_bool_mask")
             try:
-                Screen(**dict(kw, observation_mask=m))
-                rec.violation("C12/constructor/mixed-plate-accepted", "a screen with a partially observed plate %r was constructed" % p, {"mask": m.tolist(), "plates": pn.tolist()})
+                Screen(**dict(kw, observation_mask=m_given))
+                rec.violation("C12/constructor/mixed-plate-accepted", "a screen with a partially observed plate %r was constructed (mask dtype %s)" % (p, m_given.dtype), {"mask": m.tolist(), "plates": pn.tolist()})
             except ValueError:
                 pass
         # (b) defaults
